@@ -22,7 +22,7 @@ def check(rep, tier, seed, replay):
     samples = []
     all_mism = []
     cert = {"halt_checked": 0, "halt_certified": 0, "blank_spinout_certified": 0}
-    for name, progs in [("corpus", None)] + list(program_stream(tier, seed, quick_random=3000, thorough_random=30000)):
+    for name, progs in [("corpus", None)] + list(program_stream(tier, seed, quick_random=12000, thorough_random=40000)):
         if name == "corpus":
             lines = core.corpus_lines("C06")
         else:
